@@ -21,9 +21,25 @@ import (
 // ---------------------------------------------------------------- real repositories
 
 type realRepo struct {
-	dir  string   // GIT_DIR (bare)
-	oids []string // hex oid per object index
-	objs []gObj
+	dir      string   // GIT_DIR (bare)
+	oids     []string // hex oid per object index
+	objs     []gObj
+	longTail func(name string) string // expands the "@LONGREF" marker of a reference name
+}
+
+// n bytes of 200-byte path components
+func longName(n int) string {
+	if n < 1 {
+		return "w"
+	}
+	b := make([]byte, n)
+	for i := range b {
+		b[i] = 'w'
+	}
+	for i := 200; i < n-1; i += 201 {
+		b[i] = '/'
+	}
+	return string(b)
 }
 
 func blobContent(i int, size uint64) []byte {
@@ -161,7 +177,7 @@ func buildRepo(objs []gObj, times []int64, refs []string) (*realRepo, error) {
 
 // buildRepoKind: bare (<tmp>/r.git) or with a work tree (<tmp>/w, git dir <tmp>/w/.git)
 func buildRepoKind(objs []gObj, times []int64, refs []string, bare bool) (*realRepo, error) {
-	dir, err := os.MkdirTemp(scratch(), "repo")
+	dir, err := os.MkdirTemp(scratch(), "r")
 	if err != nil {
 		return nil, err
 	}
@@ -175,6 +191,16 @@ func buildRepoKind(objs []gObj, times []int64, refs []string, bare bool) (*realR
 		return nil, fmt.Errorf("git init: %s", e)
 	}
 	rr := &realRepo{dir: gitDir, objs: objs, oids: make([]string, len(objs))}
+	// "@LONGREF" in a reference name stands for the longest tail for which <gitdir>/<name> is still a valid path
+	// (4095 bytes; 4 bytes are left so that a copy of the repository under a slightly longer name still holds
+	// the loose file): about 4046 bytes here, so the `for-each-ref` line is longer than a 4096-byte read buffer
+	// (seeded change C19m read the listing with bufio.ReadSlice)
+	rr.longTail = func(name string) string {
+		if !strings.Contains(name, "@LONGREF") {
+			return name
+		}
+		return strings.Replace(name, "@LONGREF", longName(4095-len(gitDir)-1-4-(len(name)-len("@LONGREF"))), 1)
+	}
 	for i := range objs {
 		data := realData(objs, rr.oids, i, times)
 		oid, err := writeLoose(gitDir, kindName[objs[i].kind], data)
@@ -192,11 +218,11 @@ func buildRepoKind(objs []gObj, times []int64, refs []string, bare bool) (*realR
 		if at := strings.Index(kv[1], "@"); at >= 0 {
 			// a symbolic reference: a loose file `ref: <target>`
 			os.MkdirAll(filepath.Dir(filepath.Join(gitDir, kv[0])), 0o755)
-			os.WriteFile(filepath.Join(gitDir, kv[0]), []byte("ref: "+kv[1][at+1:]+"\n"), 0o644)
+			os.WriteFile(filepath.Join(gitDir, kv[0]), []byte("ref: "+rr.longTail(kv[1][at+1:])+"\n"), 0o644)
 			continue
 		}
 		idx, _ := refIdx(kv[1])
-		name := kv[0]
+		name := rr.longTail(kv[0])
 		if h := strings.Index(name, "#"); h >= 0 {
 			j, _ := strconv.Atoi(name[h+1:])
 			name = name[:h] + rr.oids[j]
@@ -228,6 +254,10 @@ func buildRepoKind(objs []gObj, times []int64, refs []string, bare bool) (*realR
 }
 
 func (rr *realRepo) cleanup() {
+	if os.Getenv("VERIF_KEEP") == "1" { // (development) keep the scratch repository for inspection
+		fmt.Fprintln(os.Stderr, "kept:", rr.dir)
+		return
+	}
 	d := filepath.Dir(rr.dir)
 	if filepath.Base(rr.dir) == ".git" {
 		d = filepath.Dir(d)
@@ -520,6 +550,9 @@ func genE2ERefs(r *rng, objs []gObj) []string {
 			// a reference name of about 3 KiB (many long components): `for-each-ref` lines and descriptions of any length
 			name = p + strings.Repeat(strings.Repeat("w", 180+r.n(40))+"/", 12+r.n(4)) + "tip"
 		}
+		if r.coin(1, 30) {
+			name = p + "@LONGREF" // expanded when the repository is written: see buildRepoKind
+		}
 		if used[name] || used[name+"/"] {
 			continue
 		}
@@ -763,7 +796,7 @@ func substArgs(args []string, rr *realRepo) []string {
 			}
 			out = append(out, oid+rest)
 		} else {
-			out = append(out, a)
+			out = append(out, rr.longTail(a))
 		}
 	}
 	return out
@@ -930,7 +963,24 @@ func init() {
 			refs := genE2ERefs(r, objs)
 			args, roots := genSelection(r, objs, refs)
 			style := []string{"full", "full", "hash", "none"}[r.n(4)]
-			layout := []string{"loose", "loose", "packed", "gc", "loose", "bitmap", "alternates", "promisor"}[r.n(8)]
+			layout := []string{"loose", "loose", "packed", "gc", "bitmap", "bitmap", "alternates", "promisor"}[r.n(8)]
+			if r.coin(1, 40) {
+				// a ROOT that is not ONE revision although it expands to one line: `X^@` of a commit with exactly one
+				// parent, `X^!` of a root commit. The run must fail; if it is accepted, its descriptions are built from
+				// a name git cannot resolve (seeded changes C08m / C10m resolved all ROOTs with one `rev-parse`)
+				for _, c := range indicesOf(objs, 'c') {
+					if len(objs[c].parents) == 1 {
+						args = append(args, "#"+strconv.Itoa(c)+"^@")
+						layout += "!badroot"
+						break
+					}
+					if len(objs[c].parents) == 0 {
+						args = append(args, "#"+strconv.Itoa(c)+"^!")
+						layout += "!badroot"
+						break
+					}
+				}
+			}
 			return []string{encRepo(objs), timesJoin(times), joinOrDash(refs, ","), encArgs(args), intsJoin(roots), style, layout}
 		},
 		exec: func(in []string) []string {
@@ -938,6 +988,8 @@ func init() {
 			times := timesSplit(in[1])
 			refs := splitOrNil(in[2], ",")
 			args := decArgs(in[3])
+			in = append([]string{}, in...)
+			in[6] = strings.TrimSuffix(in[6], "!badroot")
 			var roots []int
 			for _, s := range splitOrNil(in[4], ".") {
 				x, _ := strconv.Atoi(s)
@@ -958,22 +1010,36 @@ func init() {
 			case "gc":
 				runCmd(rr.dir, env, nil, "git", "--git-dir", rr.dir, "-c", "gc.pruneExpire=never", "gc", "-q")
 			case "bitmap":
-				// a pack with a reachability bitmap written when only the first half of the packed references existed;
-				// everything else "arrived since" and is loose (seeded change C03m listed with --use-bitmap-index,
-				// which ignores --date-order: a parent may then precede its child)
-				pr := filepath.Join(rr.dir, "packed-refs")
-				if full, err := os.ReadFile(pr); err == nil {
-					lines := strings.Split(strings.TrimRight(string(full), "\n"), "\n")
-					if len(lines) >= 2 {
-						keep := 1 + len(lines)/2
-						os.WriteFile(pr, []byte(strings.Join(lines[:keep], "\n")+"\n"), 0o644)
-						os.Rename(filepath.Join(rr.dir, "refs"), filepath.Join(rr.dir, "refs.full"))
-						os.MkdirAll(filepath.Join(rr.dir, "refs", "heads"), 0o755)
-						runCmd(rr.dir, env, nil, "git", "--git-dir", rr.dir, "repack", "-adbq")
-						os.RemoveAll(filepath.Join(rr.dir, "refs"))
-						os.Rename(filepath.Join(rr.dir, "refs.full"), filepath.Join(rr.dir, "refs"))
-						os.WriteFile(pr, full, 0o644)
+				// a pack with a reachability bitmap that holds everything BELOW the walked root commits (their
+				// parents' closures); the root commits themselves "arrived since" and are loose. A listing taken from
+				// the bitmap ignores --date-order and prints the newer commits LAST, after their parents (seeded
+				// change C03m: `--use-bitmap-index`)
+				var below []string
+				for _, rt := range roots {
+					if rt < len(objs) && objs[rt].kind == 'c' {
+						for _, p := range objs[rt].parents {
+							below = append(below, rr.oids[p])
+						}
 					}
+				}
+				pr := filepath.Join(rr.dir, "packed-refs")
+				full, err1 := os.ReadFile(pr)
+				head, err2 := os.ReadFile(filepath.Join(rr.dir, "HEAD"))
+				if len(below) > 0 && err1 == nil && err2 == nil {
+					var b strings.Builder
+					b.WriteString("# pack-refs with: peeled fully-peeled sorted \n")
+					for k, o := range below {
+						fmt.Fprintf(&b, "%s refs/heads/tmp%03d\n", o, k)
+					}
+					os.WriteFile(pr, []byte(b.String()), 0o644)
+					os.WriteFile(filepath.Join(rr.dir, "HEAD"), []byte("ref: refs/heads/none\n"), 0o644)
+					os.Rename(filepath.Join(rr.dir, "refs"), filepath.Join(rr.dir, "refs.full"))
+					os.MkdirAll(filepath.Join(rr.dir, "refs", "heads"), 0o755)
+					runCmd(rr.dir, env, nil, "git", "--git-dir", rr.dir, "repack", "-adbq")
+					os.RemoveAll(filepath.Join(rr.dir, "refs"))
+					os.Rename(filepath.Join(rr.dir, "refs.full"), filepath.Join(rr.dir, "refs"))
+					os.WriteFile(pr, full, 0o644)
+					os.WriteFile(filepath.Join(rr.dir, "HEAD"), head, 0o644)
 				}
 			case "alternates":
 				// every object is borrowed from another object directory (objects/info/alternates)
